@@ -8,6 +8,7 @@ CONSTANTS
   AssignImpl = "fixed"
   WM = 8
   ConstructSlots <- Slots2
+  Unbounded = FALSE
   Ops <- AllOps
 INVARIANTS TypeOK Refines NoAlias NoUseAfterFree NoDoubleFree NoLeak ConfigKept RoundTrip
 PROPERTIES SourceUnchanged
